@@ -25,14 +25,18 @@ from .core import clist
 from .exprgen import T_INT, T_DEC, T_STR, T_DATE, T_BOOL, PY, E, mk
 
 D = decimal.Decimal
-EXTRA_TARGETS = ['Proofs/RegistryTie.vo']
+EXTRA_TARGETS = ['Proofs/RegistryTie.vo', 'Proofs/TypingCastsProofs.vo']
 ASSUMPTIONS = [
     'model universe of datatypes: int, Decimal, str, date, bool, object, NoneType; collections, Amount, Position, '
     'Inventory, relativedelta, structured types are covered by the implementation-only sweeps, not by the theorems',
     'has_type of the model is exact (a bool value only under bool/object), which implies isinstance; tables whose int '
     'columns hold bool values are outside the theorems (the sweep feeds bool columns to int parameters instead)',
-    'the implicit cast inserted by the compiler when exactly one operand of a binary operator has dtype object is not '
-    'modelled (type_of = None there); function calls are typed only for the argument dtypes Eval.apply_func implements',
+    'the implicit cast of an object operand of a binary operator is typed by type_of_c / evaluated by eval_c (cast functions = '
+    'C18 models of int_/decimal_/date_/str_/bool_); C04_eval_cast_sound assumes the cast functions return NULL or an instance of '
+    'their target type (proved for the modelled date/str/bool/int casts and for decimal on non-str arguments; Decimal(str) may be '
+    'Infinity/NaN, outside the value universe; sweep 1 checks every cast overload of the implementation); values of cast trees '
+    'are compared except under ~ / !~ (a cast Decimal/date text as a regular expression is outside the literal-pattern model); '
+    'function calls are typed only for the argument dtypes Eval.apply_func implements',
     'registry snapshot = live registries is re-proved on every run (Proofs/RegistryTie.v); the snapshot lists an '
     'aggregate\'s output type as instantiated on operands of the declared input types',
     'sweeps: exceptions other than TypeError/AttributeError (ValueError from parse_date/maxwidth, IndexError from splitcomp/'
@@ -50,7 +54,7 @@ TY_CODE = {int: 1, D: 2, str: 3, datetime.date: 4, bool: 5, object: 6, type(None
 COQ_TY = {T_INT: 'TInt', T_DEC: 'TDec', T_STR: 'TStr', T_DATE: 'TDate', T_BOOL: 'TBool', T_OBJ: 'TObject'}
 PYT = dict(PY)
 PYT[T_OBJ] = object
-IMPORTS = ['Base.PyValue', 'Base.Decimal', 'Model.Eval', 'Model.Order', 'Model.Exec', 'Model.Typing']
+IMPORTS = ['Base.PyValue', 'Base.Decimal', 'Model.Eval', 'Model.Order', 'Model.Exec', 'Model.Typing', 'Model.TypingCasts']
 
 
 # ------------------------------------------------------------------ A. expressions
@@ -78,7 +82,7 @@ def operand(g, rng, t, depth):
     if t == T_NULL:
         return E('NULL', '(EConst VNull)', T_NULL, ['const:null'])
     if t == T_OBJ:
-        i, n = rng.choice(g.bytype[T_OBJ])
+        i, n = rng.choice(g.objcols)
         return E(n, f'(ECol {i}%nat)', T_OBJ, ['col:object'], 0, [n])
     return g.expr(t, depth)
 
@@ -87,12 +91,26 @@ def gen_mutant(g, rng, depth):
     """One node with freely chosen operand dtypes over well-typed children. Returns (E, kind) where kind tells which
     direction of the accept/reject comparison applies."""
     k = rng.random()
-    types = [t for t in ANYT if t != T_OBJ or T_OBJ in g.bytype]
+    types = [t for t in ANYT if t != T_OBJ or g.objcols]
+    if g.objcols and rng.random() < 0.3:
+        types = types + [T_OBJ] * 4          # more object-against-typed operands (implicit cast)
     if k < 0.45:
         sym = rng.choice(['+', '-', '*', '/', '%', '=', '!=', '<', '<=', '>', '>=', '~', '!~'])
-        a, b = operand(g, rng, rng.choice(types), depth), operand(g, rng, rng.choice(types), depth)
-        tag = binop_tag(sym, a.type, b.type)
+        if g.objcols and rng.random() < 0.4:
+            # the implicit cast proper: an object column against a typed operand, either side
+            a = operand(g, rng, T_OBJ, depth)
+            b = operand(g, rng, rng.choice([T_INT, T_INT, T_DEC, T_STR, T_DATE, T_BOOL]), depth)
+            if rng.random() < 0.5:
+                a, b = b, a
+        else:
+            a, b = operand(g, rng, rng.choice(types), depth), operand(g, rng, rng.choice(types), depth)
         kind = 'cast' if (a.type == T_OBJ) != (b.type == T_OBJ) else 'binop'
+        # the constructor stands for the Python function of the overload chosen AFTER the implicit cast of an object operand
+        ta, tb = a.type, b.type
+        if kind == 'cast':
+            promote = {T_INT: T_DEC}
+            ta, tb = (promote.get(tb, tb), tb) if ta == T_OBJ else (ta, promote.get(ta, ta))
+        tag = binop_tag(sym, ta, tb)
         return mk(f'({a.text} {sym} {b.text})', f'(EBinary {tag} {a.coq} {b.coq})', None, f'mut:{tag}[{a.type},{b.type}]', a, b), kind
     if k < 0.58:
         a = operand(g, rng, rng.choice(types), depth)
@@ -140,7 +158,8 @@ def gen_case(rng, depth):
                 r.append(values.gen_value(rng, PY[t], null_p))
         rows.append(tuple(r))
     g = exprgen.Gen(rng, cols, max_depth=depth)
-    # exprgen indexes columns by its own types; object columns are only reachable through `operand`
+    # exprgen skips object columns; they are only reachable through `operand`
+    g.objcols = [(i, n) for i, (n, t) in enumerate(cols) if t == T_OBJ]
     if rng.random() < 0.5:
         e = g.expr(rng.choice(exprgen.ALL_TYPES))
         kind = 'welltyped'
@@ -168,27 +187,30 @@ def run_impl(c):
         return ['rejected', str(e)[:150]]
     except Exception as e:  # noqa: BLE001
         return ['exception', type(e).__name__, str(e)[:150]]
-    return ['ok', TY_CODE.get(dt, 'other:' + getattr(dt, '__name__', str(dt))), [int(S.conforms(r[0], dt)) for r in rows]]
+    return ['ok', TY_CODE.get(dt, 'other:' + getattr(dt, '__name__', str(dt))), [int(S.conforms(r[0], dt)) for r in rows],
+            [values.canon(r[0]) for r in rows]]
 
 
 def model_expr(c):
+    """[[type], [[flag] per row]] of the cast-aware typing, and the values of the compiled tree per row."""
     cols = clist([COQ_TY[t] for _, t in c['cols']])
-    return f'typing_out {cols} [{c["coq"]}] {values.rows_to_coq(c["rows"])}'
+    rows = values.rows_to_coq(c['rows'])
+    return f'OL [typing_c_out {cols} [{c["coq"]}] {rows}; eval_c_out {cols} {c["coq"]} {rows}]'
 
 
 def model_many(cases, tag='c04'):
     out = core.coq_eval(tag, IMPORTS, [model_expr(c) for c in cases], shard=200)
     res = []
     for o in out:
-        tys, flags = o
+        (tys, flags), vals = o
         ty = tys[0][0] if tys[0] else None
-        res.append((ty, [f[0] for f in flags]))
+        res.append((ty, [f[0] for f in flags], vals))
     return res
 
 
 def compare(c, i, m):
     """None if implementation and model agree on this case, else a description."""
-    mty, mflags = m
+    mty, mflags, mvals = m
     if i[0] == 'exception':
         if mty is not None:
             return f'typed by the model ({mty}) but the implementation raised {i[1]}: {i[2]}'
@@ -197,10 +219,10 @@ def compare(c, i, m):
         if mty is not None:
             return f'model types the expression ({mty}) but the compiler rejects it: {i[1]}'
         return None
-    _, ity, iflags = i
+    _, ity, iflags, ivals = i
     if mty is None:
-        if c['kind'] in ('cast', 'func'):
-            return None      # outside the model by construction (implicit cast / other overload of the same name)
+        if c['kind'] == 'func':
+            return None      # outside the model by construction (another overload of the same function name)
         return f'compiler accepts with datatype code {ity} but the model finds no overload (type_of = None)'
     if ity != mty:
         return f'announced datatype code {ity} differs from the model\'s {mty}'
@@ -208,6 +230,8 @@ def compare(c, i, m):
         return 'a delivered value is not an instance of the announced datatype'
     if not all(f == 1 for f in mflags):
         return 'the model value does not inhabit the model type'
+    if c['kind'] == 'cast' and '~' not in c['text'] and ivals != mvals:
+        return f'values {ivals} differ from the compiled-tree model (eval_c with the implicit cast) {mvals}'
     return None
 
 
@@ -232,7 +256,6 @@ def gen_desc_case(rng, depth):
         c = gen_case(rng, depth)
     # exprgen numbers columns by position in the list it was given: keep the full list so ECol indexes stay right
     g = exprgen.Gen(rng, c['cols'], max_depth=depth)
-    g.bytype.pop(T_OBJ, None)
     targets, texts = [], set()
     for k in range(rng.randint(1, 4)):
         e = g.expr(rng.choice(exprgen.ALL_TYPES))
@@ -392,7 +415,7 @@ def run(tier, rng):
     def lap(what):
         core.log(f'[C04] {what}: {time.time() - t0:.1f}s')
     # ---- A
-    n = 1200 if quick else 8000
+    n = 1200 if quick else 12000
     depth = 3 if quick else 4
     cases = [gen_case(rng, rng.randint(1, depth)) for _ in range(n)]
     impl_out = core.pmap(run_impl, cases)
@@ -420,7 +443,7 @@ def run(tier, rng):
                 {'case': small, 'impl': run_impl(small), 'model': model_many([small], tag='c04s')[0]}, signature=sig))
     lap('A done')
     # ---- A'
-    nd = 250 if quick else 2000
+    nd = 250 if quick else 3000
     dcases = [gen_desc_case(rng, rng.randint(0, 2)) for _ in range(nd)]
     dimpl = core.pmap(run_desc_impl, dcases)
     dmodel = core.coq_eval('c04d', IMPORTS, [desc_model_expr(c) for c in dcases], shard=200)
@@ -438,7 +461,7 @@ def run(tier, rng):
                                              {'case': c, 'impl': i, 'model': m, 'desc': True}, signature=sig))
     lap('A2 done')
     # ---- B
-    na = 300 if quick else 2500
+    na = 300 if quick else 4000
     acases = [gen_agg_case(rng, rng.randint(0, 2)) for _ in range(na)]
     aimpl = core.pmap(run_agg_impl, acases)
     amodel = core.coq_eval('c04a', IMPORTS, [agg_model_expr(c) for c in acases], shard=200)
@@ -496,7 +519,7 @@ def run(tier, rng):
 
     lap('sweep 1 done')
     # ---- sweep 2 / 3
-    nled = 20 if quick else 300
+    nled = 20 if quick else 500
     per = 1 if quick else 2
     lcases = [{'text': S.FIXED_LEDGER, 'seed': 1, 'per_overload': 2}]
     sizes = {}
@@ -550,7 +573,9 @@ def run(tier, rng):
                 '(plain and expand+boxed) on every result; non-trivial = distinct (expression, schema) of depth >= 1 in A' % depth,
         'samples': [statement(c) for c in cases[:4]] + [agg_statement(c) for c in acases[:2]] + [r['sql'] for r in r1[:3]],
         'traces_validated_against_impl': len(cases) + len(acases) + len(dcases),
-        'A_expression_cases': len(cases), 'A_kinds': kinds, 'A_outcomes': outcomes, 'A_operator_histogram': dict(sorted(ophist.items())),
+        'A_expression_cases': len(cases), 'A_kinds': kinds,
+        'A_implicit_cast_cases_typed_and_value_compared': sum(1 for c, i, m in zip(cases, impl_out, model_out)
+                                                              if c['kind'] == 'cast' and i[0] == 'ok' and m[0] is not None), 'A_outcomes': outcomes, 'A_operator_histogram': dict(sorted(ophist.items())),
         'Aprime_description_cases': len(dcases), 'Aprime_histogram': desc_hist,
         'B_aggregate_cases': len(acases), 'B_histogram': dict(sorted(agg_hist.items())),
         'sweep1_overload_instances': len(s1), 'sweep1_status': status, 'sweep1b_pairs': len(sin),
